@@ -384,3 +384,7 @@ Section RVP.
     simpl. split; [| split]; auto using Rv_empty.
   Qed.
 End RVP.
+
+(* ---- dimension audit 2: at(i) for EVERY index at or beyond size() (2^31, 2^32, 2^63, SIZE_MAX ...) throws std::out_of_range *)
+Lemma c11_reserved_at_beyond_lemma : forall (T : Type) (s : c11_rv T) (i : nat), rv_size s <= i -> c11_rv_at T s i = C11_ok None.
+Proof. intros T s i H. unfold c11_rv_at. destruct (i <? rv_size s) eqn:E; [apply Nat.ltb_lt in E; lia | reflexivity]. Qed.
